@@ -100,8 +100,7 @@ theorem main_refused_serves_nothing {d : Str} {o : Opts} (h : loadCfg d o = none
 
 /-- **Sentence 2 end to end.** The operator wrote `proxy.header.tls = name` (in whatever source wins) and
 `proxy.header.tls.value = value`; then, for every client request on every HTTP listener, the upstream finds
-`name` with `value`, once, when the client connected to the TLS listener, and not at all when it connected to
-the plain listener — whatever copies of the header (any casing, repeated) and whatever `Connection` header the
+`name` with `value`, once, when the client connected to the TLS listener, and not at all when it connected to the plain listener — whatever copies of the header (any casing, repeated) and whatever `Connection` header the
 client sent. In particular the plain listener's proxy *has* the TLS header configured (seeded change m12 removed
 it there "because such a listener never sees TLS": the forged copies then pass). -/
 theorem main_tls_header_iff_tls_listener (d : Str) (o : Opts) (cfg : Cfg) (l : Listener) (st : TLS) (uuid : Str)
@@ -113,8 +112,8 @@ theorem main_tls_header_iff_tls_listener (d : Str) (o : Opts) (cfg : Cfg) (l : L
     (hcn : canonicalKey name ≠ connection) (hx : canonicalKey name ≠ xForwardedFor)
     (hf : canonicalKey name ∉ fixedHopByHop) :
     ∃ k host sent resp, mainServe d o l st uuid (some t) r = some (.forward k host sent resp) ∧
-      (l = .https → entries (canonicalKey name) sent = [(canonicalKey name, [optStr optTLSValue o])]) ∧
-      (l = .http → entries (canonicalKey name) sent = []) := by
+      (l.tls = true → entries (canonicalKey name) sent = [(canonicalKey name, [optStr optTLSValue o])]) ∧
+      (l.tls = false → entries (canonicalKey name) sent = []) := by
   obtain ⟨_, htl, htv, _⟩ := loadCfg_fields hload
   have hn : cfg.tlsHeader = name := by rw [htl, optStr, hname]; rfl
   rw [mainServe_loaded hload]
@@ -123,11 +122,11 @@ theorem main_tls_header_iff_tls_listener (d : Str) (o : Opts) (cfg : Cfg) (l : L
     (by rw [hn]; exact hf)
   refine ⟨k, host, sent, resp, by rw [hs], ?_, ?_⟩
   · intro hl
-    have := h1 (by rw [onListener_tls, hl]; rfl)
+    have := h1 (by rw [onListener_tls, hl])
     rw [hn, htv] at this
     exact this
   · intro hl
-    have := h2 (by rw [onListener_tls, hl]; rfl)
+    have := h2 (by rw [onListener_tls, hl])
     rw [hn] at this
     exact this
 
@@ -187,19 +186,20 @@ theorem main_sts_never_on_plain_listener (d : Str) (o : Opts) (st : TLS) (uuid :
 
 /-- … and on the TLS listener, with `proxy.header.sts.maxage` a positive number, every response fabio writes
 itself carries the header once, with that number (capped at MaxInt32) and the configured directives. -/
-theorem main_sts_on_tls_listener (d : Str) (o : Opts) (cfg : Cfg) (st : TLS) (uuid : Str) (t : Route) (r : Req)
-    (ip port : Str) (age : Int)
+theorem main_sts_on_tls_listener (d : Str) (o : Opts) (cfg : Cfg) (l : Listener) (st : TLS) (uuid : Str) (t : Route) (r : Req)
+    (ip port : Str) (age : Int) (hl : l.tls = true)
     (hload : loadCfg d o = some cfg)
     (hage : optInt optSTSMaxAge o = some age) (hpos : age > 0)
     (hred : (t.redirectCode != 0 && t.hasRedirectURL) = false)
     (hsplit : splitHostPort r.remoteAddr = some (ip, port))
     (hws : isWebsocket (withRequestID cfg uuid r).headers = false)
     (hcu : ClientIPKeyFree cfg upgrade) (htu : TLSKeyFree cfg upgrade) :
-    ∃ s, mainServe d o .https st uuid (some t) r = some s ∧ clientSTS s = [stsValue cfg] ∧ cfg.stsMaxAge = age := by
+    ∃ s, mainServe d o l st uuid (some t) r = some s ∧ clientSTS s = [stsValue cfg] ∧ cfg.stsMaxAge = age := by
   obtain ⟨_, _, _, _, _, ha, _⟩ := loadCfg_fields hload
   have hae : cfg.stsMaxAge = age := by rw [hage] at ha; exact (Option.some.inj ha).symm
   refine ⟨_, mainServe_loaded hload _ _ _ _ _, ?_, hae⟩
-  exact client_sts_on_tls cfg uuid t (onListener .https st r) ip port hred hsplit rfl (by rw [hae]; exact hpos) hws hcu htu
+  exact client_sts_on_tls cfg uuid t (onListener l st r) ip port hred hsplit (by rw [onListener_tls, hl])
+    (by rw [hae]; exact hpos) hws hcu htu
 
 /-- **X-Forwarded-Host / -Port end to end**: the host the client asked for and its port (else 443 on the TLS
 listener, 80 on the plain one), for every `host=` option of the route. -/
